@@ -44,6 +44,12 @@ static LabelEntry::ExtraData shared_extra;
 static inline CodeHolder* holder() { return &code_mem.c; }
 static inline Section* sec(uint32_t i) { return i == 0 ? &holder()->_text_section : &sect_mem[i]; }
 
+// Aim the arena cursor at a static block. The block end is set to the highest address ("unbounded block"): the generated C
+// compares `cursor + size > end` as integers, which the symbolic executor can only decide against a constant; a real end pointer
+// makes it walk the (infeasible) refill path on every allocation and turns every allocated pointer into a two-way choice.
+// Running off the static block is still caught: the block is an object of its own (pointer checks).
+static inline void set_arena(void* p, size_t) { holder()->_arena._ptr = static_cast<uint8_t*>(p); holder()->_arena._end = reinterpret_cast<uint8_t*>(~uintptr_t(0)); }
+
 // n sections with ids 0..n-1, laid out in `_sections_by_order` in id order (callers permute / re-order as needed).
 // Section 0 is the built-in .text (order INT_MIN, alignment 0, offset 0) exactly as CodeHolder_add_text_section creates it;
 // the others look like the result of new_section (alignment 1, order 0, no offset). Buffers: 32 bytes capacity, size 0.
@@ -59,7 +65,7 @@ static inline CodeHolder* make_holder(Arch arch, uint32_t n) {
   c->_fixups = nullptr; c->_unresolved_fixup_count = 0; c->_fixup_data_pool._data = nullptr;
   c->_address_table_section = nullptr; c->_address_table_entries._root = nullptr; c->_attached_first = nullptr; c->_attached_last = nullptr;
   c->_base_address = Globals::kNoBaseAddress;
-  c->_arena._ptr = arena_block; c->_arena._end = arena_block + sizeof(arena_block);  // see set_arena
+  set_arena(arena_block, sizeof(arena_block));
   shared_extra._section_id = Globals::kInvalidId; shared_extra._parent_id = Globals::kInvalidId;
   shared_extra._internal_label_type = LabelType::kAnonymous; shared_extra._internal_label_flags = LabelFlags::kNone;
   shared_extra._internal_uint16_data = 0; shared_extra._name_size = 0;
@@ -80,9 +86,6 @@ static inline CodeHolder* make_holder(Arch arch, uint32_t n) {
   c->_relocations._data = reloc_tab; c->_relocations._size = 0; c->_relocations._capacity = kMaxRelocs + 1;
   return c;
 }
-
-// Aim the arena cursor at a typed static array (objects the code under test allocates then live in typed storage).
-static inline void set_arena(void* p, size_t n) { holder()->_arena._ptr = static_cast<uint8_t*>(p); holder()->_arena._end = static_cast<uint8_t*>(p) + n; }
 
 // An unbound anonymous label (what new_label_id appends).
 static inline uint32_t add_label() {
@@ -113,10 +116,17 @@ static inline int64_t sext(uint64_t v, uint32_t bits) { return bits >= 64 ? int6
 static inline uint64_t lsb_mask(uint32_t n) { return n >= 64 ? ~0ull : ((1ull << n) - 1); }
 }  // namespace chenv
 
-// Arena / vector growth entry points. The harness tables have spare capacity and the arena cursor points at a static block, so
-// none of these is reachable; each stub is a proof obligation saying so (an undefined external would hand CBMC a wild pointer).
+// Arena / vector / buffer growth entry points. The harness tables have spare capacity, the arena cursor points at a static block
+// and the section buffers have room, so none of these is reachable; each stub is a proof obligation saying so. They are
+// "transparent" (report success, change nothing observable): the generated C compares pointers as integers, which the symbolic
+// executor cannot decide, so it also walks the infeasible growth paths - a stub that returned an error there would make table
+// sizes symbolic (early return with fewer entries) and an undefined external would hand out a wild pointer.
+alignas(16) static uint8_t arena_spare[128];
 ASMJIT_BEGIN_NAMESPACE
-void* Arena::_alloc_oneshot(size_t) noexcept { V_ASSERT(false, "stub reached: Arena _alloc_oneshot (static arena block exhausted)"); return nullptr; }
-Error ArenaVectorBase::_reserve_additional(Arena&, size_t, ItemSize<true>) noexcept { V_ASSERT(false, "stub reached: ArenaVector growth (pow2 item)"); return Error::kOutOfMemory; }
-Error ArenaVectorBase::_reserve_additional(Arena&, size_t, ItemSize<false>) noexcept { V_ASSERT(false, "stub reached: ArenaVector growth"); return Error::kOutOfMemory; }
+void* Arena::_alloc_oneshot(size_t) noexcept { V_ASSERT(false, "stub reached: Arena _alloc_oneshot (static arena block exhausted)"); return ::arena_spare; }
+Error ArenaVectorBase::_reserve_additional(Arena&, size_t, ItemSize<true>) noexcept { V_ASSERT(false, "stub reached: ArenaVector growth (pow2 item)"); return Error::kOk; }
+Error ArenaVectorBase::_reserve_additional(Arena&, size_t, ItemSize<false>) noexcept { V_ASSERT(false, "stub reached: ArenaVector growth"); return Error::kOk; }
+#ifndef CHENV_REAL_GROW_BUFFER
+Error CodeHolder::grow_buffer(CodeBuffer*, size_t) noexcept { V_ASSERT(false, "stub reached: CodeHolder grow_buffer (buffer growth is C15)"); return Error::kOk; }
+#endif
 ASMJIT_END_NAMESPACE
